@@ -14,11 +14,12 @@ COQ_AGREE = 'agree'
 COQ_SHARD = 100
 REPLAY_KIND = 'history'
 EXHAUSTIVE = {'quick': False, 'thorough': False}
-RULE = ('seeded random histories of 5..40 operations over 1..5 masters of a versioned plain class (column a UNIQUE): create, attribute '
+RULE = ('seeded random histories of 5..40 operations over 1..5 masters of a versioned plain class (column a UNIQUE, column c a ForeignKey): create, attribute '
         'assignment, multi-column set (also empty, also values equal to the current ones), restore of a random existing version (of any '
         'master, also one equal to the current row, also twice the same); three streams: valid (the generator simulates the tables and '
         'keeps only operations that go through), failing (ill-typed updates, creations without the required column, restores of unknown '
-        'versions, unknown masters) and dbrefused (as failing, plus values of a that collide with another master: the open finding). '
+        'versions, unknown masters, a few set() calls with an unknown keyword), dbrefused (as failing, plus values of a that collide with another '
+        'master: open finding) and kwrefused (every other set() carries an unknown keyword: open finding; the updates after it are judged). '
         'Non-trivial = at least two masters or one restore, and at least three versions; distinct = distinct operation lists.')
 EXPLANATION = ('Theorems C20_* (Coq, all histories over any number of masters) over Model/Versioning.v; correspondence: the model evaluated '
                'by vm_compute against the real SQLObject (sqlobject.versioning on sqlite) after every step: outcome, the raw master and version '
@@ -31,12 +32,13 @@ TRUSTED_BASE = [
     'modelled, not verified: the values Versioning.rowUpdate reads from the instance (asDict: cached attributes) equal the stored row -- '
     'one instance per master, no raw SQL, no second connection (this is property C05); sqlite returns the rows of an unordered SELECT in rowid order; '
     'AUTOINCREMENT ids (a refused INSERT uses none), UNIQUE ignores NULLs and is checked per statement',
-    'fixture: master columns a=IntCol(unique=True) b=StringCol(default=None) c=IntCol(default=7), eager (not lazyUpdate), no extraCols, no inheritance, '
+    'fixture: master columns a=IntCol(unique=True) b=StringCol(default=None) c=ForeignKey(other class, default=7; set and read through cID, never '
+    'dereferenced, sqlite does not enforce it), eager (not lazyUpdate), no extraCols, no inheritance, '
     'masters are never destroyed; dateArchived is not compared',
     'the correspondence harness tools/props/c20.py and the cases.v evaluation',
 ]
 
-COLS = ['a', 'b', 'c']
+COLS = ['a', 'b', 'cID']        # keyword / attribute names; c is a ForeignKey (value keyed cID, table column c_id)
 COLTY = ['int', 'str', 'int']
 DEFAULT = {1: None, 2: 7}
 STR = ['', 'x', 'yy', 'abc', 'q']
@@ -99,6 +101,13 @@ class _Sim(object):
             self.rows[m][c] = v
         return 'ok'
 
+    def refuse(self, m, pairs):
+        """set() with an unknown keyword"""
+        if m not in self.rows or not all(val_ok(c, v) for c, v in pairs):
+            return 'fail'
+        self.vers.append((m, list(self.rows[m])))
+        return 'kw'
+
     def restore(self, vid):
         if not (1 <= vid <= len(self.vers)):
             return 'fail'
@@ -113,7 +122,7 @@ class _Sim(object):
 
 
 def gen_case(rng, stream):
-    bad = 0.2 if stream != 'valid' else 0.0
+    bad = 0.0 if stream == 'valid' else 0.08 if stream == 'kwrefused' else 0.2
     nm = rng.randint(1, 5)
     ops = []
     sim = _Sim()
@@ -133,15 +142,18 @@ def gen_case(rng, stream):
                 op = ['assign', m, c, rand_val(rng, c, bad)]
             elif r < 0.75:
                 op = ['set', m, rand_kw(rng, bad, False) if rng.random() < 0.92 else []]
+                if stream != 'valid' and rng.random() < (0.45 if stream == 'kwrefused' else 0.08):
+                    op[0] = 'setbad'
             else:
                 vid = rng.randint(1, versions) if not (stream != 'valid' and rng.random() < 0.05) else versions + 3
                 op = ['restore', vid]
         trial = sim.copy()
         res = (trial.create(op[1]) if op[0] == 'create' else trial.restore(op[1]) if op[0] == 'restore' else
+               trial.refuse(op[1], op[2]) if op[0] == 'setbad' else
                trial.update(op[1], [[op[2], op[3]]] if op[0] == 'assign' else op[2]))
         if stream == 'valid' and res != 'ok':
             continue
-        if stream == 'failing' and res == 'dup' and op[0] != 'create':
+        if stream in ('failing', 'kwrefused') and res == 'dup' and op[0] != 'create':
             continue
         sim = trial
         ops.append(op)
@@ -160,6 +172,12 @@ def corpus():
         {'stream': 'dbrefused', 'ops': [['create', [[0, 1]]], ['create', [[0, 2]]], ['assign', 2, 0, 1]]},
         {'stream': 'dbrefused', 'ops': [['create', [[0, 1]]], ['create', [[0, 2]]], ['assign', 1, 0, 5], ['assign', 2, 0, 1], ['restore', 1],
                                         ['assign', 1, 1, 'q']]},
+        # witness of the open finding keyword_refused_set_leaves_version; the updates after the refused call are judged
+        {'stream': 'kwrefused', 'ops': [['create', [[0, 1]]], ['setbad', 1, [[1, 'q']]]]},
+        {'stream': 'kwrefused', 'ops': [['create', [[0, 1]]], ['assign', 1, 1, 'x'], ['setbad', 1, []], ['assign', 1, 2, 3], ['set', 1, [[0, 2]]],
+                                        ['restore', 1]]},
+        # restore of a version whose foreign key differs from the current one
+        {'stream': 'valid', 'ops': [['create', [[0, 1], [2, 3]]], ['assign', 1, 2, 5], ['assign', 1, 1, 'x'], ['restore', 1], ['assign', 1, 0, 2]]},
         # two masters, interleaved updates, restore of an old version, restore of a version equal to the current row
         {'stream': 'valid', 'ops': [['create', [[0, 1]]], ['create', [[0, 2], [1, 'x']]], ['assign', 1, 0, 5], ['set', 2, [[2, 3], [1, 'yy']]],
                                     ['assign', 1, 1, 'q'], ['restore', 1], ['restore', 1], ['set', 2, []], ['restore', 2], ['assign', 2, 0, 2],
@@ -169,11 +187,11 @@ def corpus():
 
 def generate(rng, tier):
     n = 900 if tier == 'quick' else 15000
-    return [gen_case(rng, ['valid', 'valid', 'failing', 'dbrefused', 'valid'][i % 5]) for i in range(n)]
+    return [gen_case(rng, ['valid', 'valid', 'failing', 'dbrefused', 'valid', 'kwrefused'][i % 6]) for i in range(n)]
 
 
 def search_cases(rng, tier):
-    return [gen_case(rng, ['valid', 'failing', 'dbrefused'][i % 3]) for i in range(2500)]
+    return [gen_case(rng, ['valid', 'failing', 'dbrefused', 'kwrefused'][i % 4]) for i in range(2500)]
 
 
 # ---------------------------------------------------------------- implementation side
@@ -183,17 +201,20 @@ EXC = {'Invalid': 'invalid', 'TypeError': 'typeerror', 'KeyError': 'keyerror', '
 
 
 def run_history(case):
-    from sqlobject import SQLObject, IntCol, StringCol
+    from sqlobject import SQLObject, IntCol, StringCol, ForeignKey
     from sqlobject.versioning import Versioning
     from sqlobject.sqlite.sqliteconnection import SQLiteConnection
     _counter[0] += 1
     conn = SQLiteConnection(':memory:')
     name = 'VerifC20M%dx%d' % (os.getpid(), _counter[0])
+    F = type(SQLObject)('VerifC20F%dx%d' % (os.getpid(), _counter[0]), (SQLObject,), {
+        '_connection': conn, 'label': StringCol(default=None)})
     M = type(SQLObject)(name, (SQLObject,), {
         '_connection': conn,
-        'a': IntCol(unique=True), 'b': StringCol(default=None), 'c': IntCol(default=7),
+        'a': IntCol(unique=True), 'b': StringCol(default=None), 'c': ForeignKey(F.__name__, default=7),
         'versions': Versioning()})
     V = M.versions.versionClass
+    F.createTable()
     M.createTable()
     mt, vt = M.sqlmeta.table, V.sqlmeta.table
     handles = {}
@@ -201,9 +222,9 @@ def run_history(case):
     def dump():
         raw = conn.getConnection()
         cur = raw.cursor()
-        cur.execute('SELECT id, a, b, c FROM %s ORDER BY id' % mt)
+        cur.execute('SELECT id, a, b, c_id FROM %s ORDER BY id' % mt)
         ms = [list(r) for r in cur.fetchall()]
-        cur.execute('SELECT id, master_id, a, b, c FROM %s ORDER BY id' % vt)
+        cur.execute('SELECT id, master_id, a, b, c_id FROM %s ORDER BY id' % vt)
         vs = [list(r) for r in cur.fetchall()]
         cur.close()
         conn.releaseConnection(raw)
@@ -225,6 +246,8 @@ def run_history(case):
             setattr(o, COLS[op[2]], op[3])
         elif t == 'set':
             o.set(**dict((COLS[c], v) for c, v in op[2]))
+        elif t == 'setbad':
+            o.set(zz=1, **dict((COLS[c], v) for c, v in op[2]))      # zz: neither a column nor an attribute
         else:
             raise ValueError('unknown op %r' % (op,))
         return 'done'
@@ -238,7 +261,7 @@ def run_history(case):
                 nm = type(e).__name__
                 out = ['exn', EXC.get(nm, 'other:' + nm)]
             ms, vs = dump()
-            api = [[i, [[v.id, v.masterID, v.a, v.b, v.c] for v in o.versions]] for i, o in sorted(handles.items())]
+            api = [[i, [[v.id, v.masterID, v.a, v.b, v.cID] for v in o.versions]] for i, o in sorted(handles.items())]
             steps.append({'out': out, 'masters': ms, 'versions': vs, 'api': api})
     finally:
         conn.cache.clear()
@@ -296,6 +319,8 @@ def cop(op):
         return '(VAssign %s %s %s)' % (z(op[1]), CCOL[op[2]], cval(op[3]))
     if t == 'set':
         return '(VSet %s %s)' % (z(op[1]), ckw(op[2]))
+    if t == 'setbad':
+        return '(VSetBad %s %s)' % (z(op[1]), ckw(op[2]))
     return '(VRestore %s)' % z(op[1])
 
 
@@ -333,7 +358,7 @@ def coq_case(c, o):
 def _bad_update(op):
     if op[0] == 'assign':
         return not val_ok(op[2], op[3])
-    if op[0] == 'set':
+    if op[0] in ('set', 'setbad'):
         return not all(val_ok(c, v) for c, v in op[2])
     return False
 
@@ -343,7 +368,8 @@ def oracle(c, o):
         return {'what': 'no observation', 'actual': o}
     hist = {}                       # master id -> list of rows (the test's own record)
     prev_m, prev_api = [], {}
-    db_refused = set()              # masters one of whose updates the DATABASE refused (the open finding)
+    db_refused = set()              # masters one of whose updates the DATABASE refused (open finding)
+    kw_refused = set()              # masters one of whose set() calls was refused for an unknown keyword (open finding)
     first_known = None
     for i, (op, s) in enumerate(zip(c['ops'], o['steps'])):
         ms = dict((r[0], r[1:]) for r in s['masters'])
@@ -389,10 +415,17 @@ def oracle(c, o):
                     for cc, v in ([[op[2], op[3]]] if t == 'assign' else op[2]):
                         want[cc] = v
             collide = False
-            if target is not None and must:
+            if t == 'setbad' and target is not None and must:
+                # well-typed values, unknown keyword: set() has to raise TypeError and leave the row alone
+                if out != ['exn', 'typeerror'] or ms.get(target) != pm[target]:
+                    f = {'what': 'set() with an unknown keyword was not refused cleanly', 'actual': out}
+                kw_refused.add(target)
+            elif target is not None and must:
                 touches_a = t == 'restore' or any(cc == 0 for cc, _v in ([[op[2], op[3]]] if t == 'assign' else op[2]))
                 collide = touches_a and want[0] is not None and any(r[0] == want[0] for k, r in pm.items() if k != target)
-            if target is None:
+            if f or t == 'setbad' and target is not None and must:
+                pass
+            elif target is None:
                 if out == 'done':
                     f = {'what': 'an update of something that does not exist succeeded', 'actual': out}
             elif collide:
@@ -427,6 +460,8 @@ def oracle(c, o):
                          'expected': hist.get(m), 'actual': [v[2:] for v in vs] + [ms[m]]}
                     if m in db_refused:
                         f['known'] = 'db_refused_update_leaves_version'
+                    elif m in kw_refused:
+                        f['known'] = 'keyword_refused_set_leaves_version'
                     break
             if not f:
                 allv = sorted(v[0] for vs in api.values() for v in vs)
@@ -481,6 +516,8 @@ def distribution(cases, obs):
                 d['refused_updates'] += 1
             if op[0] != 'create' and out == 'duplicate':
                 d['db_refused_updates'] = d.get('db_refused_updates', 0) + 1
+            if op[0] == 'setbad' and out == 'typeerror':
+                d['keyword_refused_sets'] = d.get('keyword_refused_sets', 0) + 1
             if op[0] == 'set' and not op[1 + 1]:
                 d['empty_sets'] += 1
             if op[0] == 'restore' and out == 'done' and s['masters'] == prev:
